@@ -220,6 +220,12 @@ def values(rng, quick):
     vals.append(("Frame", (M.MessageHeader(1, 2, 3, 4), M.DataMessage(M.DATA_TRANSACTION, pick[0].transactions[-1]))))
     vals.append(("Frame", (M.MessageHeader(1, 2, 3, 4), netmsg.hello(nonce=0xffffffff, my_port=65535, agent=b"a" * 255))))
     vals.append(("Frame", (M.MessageHeader(1, 2, 3, 4), M.PeersMessage([]))))
+    # a peer record carries a full 16-byte address: native IPv6, unspecified, loopback, mapped and unmapped forms side by side
+    from ipaddress import IPv6Address
+    addrs = ["2001:db8::1", "::", "::1", "::ffff:10.0.0.1", "fe80::1", "::10.0.0.1", "ffff:ffff:ffff:ffff:ffff:ffff:ffff:ffff"]
+    vals.append(("Frame", (M.MessageHeader(1, 2, 3, 4), M.PeersMessage([M.Peer(i, IPv6Address(a), 1000 + i) for i, a in enumerate(addrs)]))))
+    for a in addrs:
+        vals.append(("Frame", (M.MessageHeader(1, 2, 3, 4), M.PeersMessage([M.Peer(0, IPv6Address(a), 2412)]))))
     return vals
 
 
